@@ -21,6 +21,8 @@ type Lexer struct {
 	// priceStage follows a P directive: 1 after the keyword, 2 after its date (the next word
 	// is the priced commodity, whatever its spelling)
 	priceStage int
+	// input[noColonFrom:noColonUntil] is known to hold neither a colon nor an account terminator
+	noColonFrom, noColonUntil int
 }
 
 const (
@@ -715,13 +717,17 @@ func (l *Lexer) scanSign() Token {
 }
 
 func (l *Lexer) looksLikeAccount() bool {
-	hasColon := false
+	// a scan that found no colon up to its end answers every later question asked from inside
+	// the stretch it covered: a long line of words is looked through once, not once per word
+	if l.pos >= l.noColonFrom && l.pos < l.noColonUntil {
+		return false
+	}
 
-	for i := l.pos; i < len(l.input); {
+	i := l.pos
+	for i < len(l.input) {
 		r, size := utf8.DecodeRuneInString(l.input[i:])
 		if r == ':' {
-			hasColon = true
-			i += size
+			return true
 		} else if r == ' ' {
 			if i+1 < len(l.input) && l.input[i+1] == ' ' {
 				break
@@ -734,7 +740,8 @@ func (l *Lexer) looksLikeAccount() bool {
 		}
 	}
 
-	return hasColon
+	l.noColonFrom, l.noColonUntil = l.pos, i
+	return false
 }
 
 func (l *Lexer) looksLikeCommodity(value string) bool {
